@@ -57,16 +57,33 @@ static std::string classify(const std::string& err, int status) {
 
 // the library's own handler: mp::NLSolver::ReadSolution() with SOLHandler_Easy (nl-writer2/src/nl-solver.cc) on a model
 // with nv continuous variables and nc (empty) linear rows
-static std::string readEasy(const std::string& work, const std::string& bytes, int nv, int nc) {
+static std::string readEasy(const std::string& work, const std::string& bytes, int nv, int nc, bool mixed) {
   std::vector<double> lb(nv, 0.0), ub(nv, 1.0), rlb(nc, 0.0), rub(nc, 1.0), c(nv, 1.0);
   std::vector<size_t> start(nc + 1, 0);
   std::vector<int> idx;
-  std::vector<double> val;
+  std::vector<double> aval;
   mp::NLModel m("easy");
-  m.SetCols({nv, lb.data(), ub.data(), nullptr});
-  m.SetRows(nc, rlb.data(), rub.data(), {nc, NLW2_MatrixFormatRowwise, 0, start.data(), idx.data(), val.data()});
+  // `mixed`: integer variables in between and a quadratic term on the last variable, so that NLFeeder_Easy's variable
+  // permutation (nonlinear / continuous / integer order of the NL format) is not the identity
+  std::vector<int> types(nv, NLW2_VarTypeContinuous);
+  if (mixed) for (int i = 0; i < nv; i++) if (i % 3 != 2) types[i] = NLW2_VarTypeInteger;
+  m.SetCols({nv, lb.data(), ub.data(), mixed ? types.data() : nullptr});
+  m.SetRows(nc, rlb.data(), rub.data(), {nc, NLW2_MatrixFormatRowwise, 0, start.data(), idx.data(), aval.data()});
   m.SetLinearObjective(NLW2_ObjSenseMinimize, 0.0, c.data());
+  std::vector<size_t> qstart(nv + 1, 0);
+  std::vector<int> qidx;
+  std::vector<double> qval;
+  if (mixed && nv >= 2) {
+    for (int i = nv; i <= nv; i++) qstart[i] = 1;
+    qidx.push_back(nv - 1); qval.push_back(2.0);
+    m.SetHessian(NLW2_HessianFormatTriangular, {nv, NLW2_MatrixFormatRowwise, 1, qstart.data(), qidx.data(), qval.data()});
+  }
   QuietUtils u;
+  mp::NLModel::PreprocessData pd;
+  {
+    std::string e = m.WriteNL(work + "/easy_perm", NLW2_MakeNLOptionsBasic_C_Default(), u, pd);
+    if (!e.empty()) return "code=LoadFailed msg=0 | " + e;
+  }
   mp::NLSolver nls(&u);
   std::string stub = work + "/easy";
   nls.SetFileStub(stub);
@@ -78,10 +95,13 @@ static std::string readEasy(const std::string& work, const std::string& bytes, i
   }
   mp::NLSolution sol = nls.ReadSolution();
   std::string emsg = nls.GetErrorMessage();
+  std::string perm, xv;
+  for (size_t i = 0; i < pd.vperm_inv_.size(); i++) perm += (i ? "," : "") + std::to_string(pd.vperm_inv_[i]);
+  for (size_t i = 0; i < sol.x_.size(); i++) xv += (i ? "," : "") + val(sol.x_[i]);
   std::string r = std::string("code=") + codeName(nls.GetSolReadResultCode()) + " msg=" + (emsg.empty() ? "0" : "1") + " | easy ok=" + (emsg.empty() ? "1" : "0") + " x=" +
                   std::to_string(sol.x_.size()) + " y=" + std::to_string(sol.y_.size()) + " sr=" + std::to_string(sol.solve_result_) +
                   " nbs=" + std::to_string(sol.nbs_) + " nsuf=" + std::to_string(sol.suffixes_.size()) + " m=" +
-                  hexs(sol.solve_message_.data(), sol.solve_message_.size());
+                  hexs(sol.solve_message_.data(), sol.solve_message_.size()) + " perm=" + (perm.empty() ? "-" : perm) + " xv=" + (xv.empty() ? "-" : xv);
   return r + " || emsg=" + hexs(emsg.data(), std::min<size_t>(emsg.size(), 8192));
 }
 
@@ -158,7 +178,8 @@ int main(int argc, char** argv) {
     if (!(ss >> tag >> id >> fx >> nv >> nc >> rv >> da >> pa >> sa >> hexb) || tag != "case") { put("bad-op\n"); continue; }
     RecHandler h;
     std::string bytes;
-    bool easy = da == "easy";
+    bool easy = da == "easy" || da == "easyp";
+    bool mixed = da == "easyp";
     bool capi = da == "capi";
     if (capi) da = pa = sa = "all";
     bool missing = hexb == "missing";
@@ -183,7 +204,7 @@ int main(int argc, char** argv) {
       close(ep[0]);
       dup2(ep[1], 2);
       alarm(20);
-      std::string r = easy ? readEasy(work, bytes, (int)nv, (int)nc) : capi ? readCApi(work, bytes, (int)nv, (int)nc) : readWith(path, h, true);
+      std::string r = easy ? readEasy(work, bytes, (int)nv, (int)nc, mixed) : capi ? readCApi(work, bytes, (int)nv, (int)nc) : readWith(path, h, true);
       put(id + " " + r + "\n");
       COV_DUMP();
       _exit(0);
